@@ -41,13 +41,16 @@ TOL = 1e-9
 def plan(tier, seed):
     n = 16
     per = 56 if tier == "quick" else 500
-    return [{"name": "s%02d" % i, "shard": i, "instances": per, "timeout": 7000} for i in range(n)]
+    specs = [{"name": "s%02d" % i, "shard": i, "instances": per, "timeout": 7000} for i in range(n)]
+    specs += [{"name": "step%d" % i, "kind": "samplestep", "shard": 50 + i, "instances": 6 if tier == "quick" else 40, "timeout": 7000} for i in range(4)]
+    return specs
 
 
 def required(tier):
     return {"gibbs_vectors": 2000, "mh_vectors": 2000, "mh_db_edges": 3000, "swap_pairs_checked": 1000, "swap_m1_checked": 100,
             "gibbs_unbalanced": 200, "gibbs_with_children": 300, "gibbs_with_parents": 300, "vectors_lambda": 100,
-            "swap_unequal_reads": 100, "vectors_error_zero": 100, "scenarios_seen": 12, "gibbs_hexaploid": 100}
+            "swap_unequal_reads": 100, "vectors_error_zero": 100, "scenarios_seen": 12, "gibbs_hexaploid": 100,
+            "sample_step_kernels_checked": 20, "sample_step_paths_enumerated": 1000}
 
 
 class NpProxy:
@@ -263,7 +266,112 @@ def run_swap(PM, K, state, pair_idx, ip, iq, u, cache):
     return float(prob), s
 
 
+class _ShuffleProxy:
+    class _R:
+        def __init__(self, order):
+            self.order = order
+
+        def shuffle(self, arr):
+            arr[:] = self.order
+
+    def __init__(self, order):
+        self.random = _ShuffleProxy._R(order)
+
+    def __getattr__(self, name):
+        return getattr(np, name)
+
+
+class _Scripted:
+    def __init__(self, choices):
+        self.choices = list(choices)
+        self.probs = []
+
+    def __call__(self, p):
+        self.probs.append(np.array(p, dtype=float, copy=True))
+        return self.choices[len(self.probs) - 1]
+
+
+def run_samplestep(tier, seed, spec, col):
+    """Exact transition kernel of sample_step (random scan over the allele copies of one individual): every scan order and
+    every sequence of choices is forced through the real sample_step.py_func / allele_step.py_func; the conditional joint
+    posterior of that individual's genotype given everybody else must be stationary (pi P = pi)."""
+    from mchap.pedigree import mcmc as PM
+
+    names = ["trio2", "duo", "selfing", "halfsibs", "mixed_4x2_3", "unreduced", "trio4", "fullsibs", "threegen"]
+    for i in range(spec["instances"]):
+        rng = gen.rng_for(seed, ID, spec["shard"], i)
+        I = pedgen.make_pedigree(rng, names[(spec["shard"] + i) % len(names)])
+        if len(I["haps"]) > 3:
+            I["haps"] = I["haps"][:3]
+            I["freqs"] = I["freqs"][:3] / I["freqs"][:3].sum()
+        J = pedgen.Joint(I)
+        K = pedgen.Kernels(I)
+        n_h = len(I["haps"])
+        st0 = None
+        for _ in range(100):
+            cand = pedgen.random_state(rng, I)
+            if J.log_nu(cand) != -math.inf:
+                st0 = cand
+                break
+        if st0 is None:
+            continue
+        # individuals of ploidy <= 3 keep the enumeration small
+        cands = [t for t in range(len(I["ploidy"])) if int(I["ploidy"][t]) <= (3 if tier == "quick" else 4)]
+        if not cands:
+            continue
+        t = int(cands[int(rng.integers(len(cands)))])
+        ploidy = int(I["ploidy"][t])
+        gts = list(itertools.combinations_with_replacement(range(n_h), ploidy))
+        # conditional target over unordered genotypes of t (others fixed)
+        lw = []
+        for g in gts:
+            y = st0.copy()
+            y[t, :ploidy] = g
+            lw.append(J.log_nu(y) + M.log_perms(g))
+        pi = np.array(M.normalise_logs(lw))
+        idx = {g: k for k, g in enumerate(gts)}
+        orders = list(itertools.permutations(range(ploidy)))
+        real_allele_step = PM.allele_step
+
+        def allele_step_py(**kw):
+            return real_allele_step.py_func(**kw)
+
+        for step_type in (0, 1):
+            P = np.zeros((len(gts), len(gts)))
+            for a, g0 in enumerate(gts):
+                if pi[a] == 0:
+                    continue
+                for order in orders:
+                    for choices in itertools.product(range(n_h), repeat=ploidy):
+                        y = st0.copy()
+                        y[t, :ploidy] = g0
+                        rec = _Scripted(choices)
+                        kw = K._common(y, None)
+                        with monitors.patched((PM, "random_choice", rec), (PM, "np", _ShuffleProxy(np.array(order))), (PM, "allele_step", allele_step_py)):
+                            PM.sample_step.py_func(target_index=t, sample_children=K.children, step_type=step_type, **kw)
+                        col.count("sample_step_paths_enumerated")
+                        pr = 1.0 / len(orders)
+                        for vec, c in zip(rec.probs, choices):
+                            pr *= float(vec[c])
+                        if pr > 0:
+                            P[a, idx[tuple(sorted(int(x) for x in y[t, :ploidy]))]] += pr
+            col.count("sample_step_kernels_checked")
+            col.case("SS|%d|%d|%d|%d" % (spec["shard"], i, t, step_type), nontrivial=True)
+            live = pi > 0
+            rep = {"instance": pedgen.pack(I), "state": st0.tolist(), "extra": {"t": t, "step_type": step_type}}
+            if np.abs(P[live].sum(axis=1) - 1).max() > 1e-9:
+                col.violation("row-not-a-distribution", "sample_step kernel rows sum to %s" % P[live].sum(axis=1).tolist(), rep)
+                continue
+            res = float(np.abs(pi @ P - pi).max())
+            col.maxv("max_sample_step_stationarity_residual", res)
+            if res > 1e-9:
+                col.violation("sample-step-not-stationary-at-conditional-posterior", "sample_step (%s) for individual %d [%s]: max |pi P - pi| = %.3g"
+                              % ("Gibbs" if step_type == 0 else "MH", t, I["name"], res), rep)
+
+
 def run_shard(tier, seed, spec, col):
+    if spec.get("kind") == "samplestep":
+        return run_samplestep(tier, seed, spec, col)
     names = sorted(pedgen.SCENARIOS)
     for i in range(spec["instances"]):
         rng = gen.rng_for(seed, ID, spec["shard"], i)
